@@ -90,7 +90,7 @@ class State:
 
 
 class Frame:
-    __slots__ = ("fn", "depth", "bb", "ret_to", "consts", "tsub")
+    __slots__ = ("fn", "depth", "bb", "ret_to", "consts", "tsub", "targs_key")
 
     def __init__(self, fn, depth):
         self.fn = fn
@@ -99,6 +99,7 @@ class Frame:
         self.ret_to = None  # (dest place, target bb) in caller
         self.consts = None  # const generic parameters bound at the call (`take::<6>()`): name -> integer
         self.tsub = None    # type parameters bound at the call (`check::<u16>(v)`): name -> concrete type
+        self.targs_key = None
 
     def root(self, local):
         return ("L", self.depth, local)
@@ -1004,6 +1005,7 @@ class Explorer:
             g.ret_to = f.ret_to
             g.consts = f.consts
             g.tsub = f.tsub
+            g.targs_key = f.targs_key
             out.append(g)
         return out
 
@@ -1084,6 +1086,12 @@ class Explorer:
             # inside an inlined generic helper instantiated at a primitive type: `T::default()` is `u16::default()`
             info = dict(info)
             info["targs"] = [fr.tsub.get(t_, t_) for t_ in info["targs"]]
+        if info is not None and fr.consts and info.get("targs") and any(re.search(r"\[[^\]]*; [A-Za-z_]\w*\]", t_) for t_ in info["targs"]):
+            # an array type whose length is a const parameter bound at the inlined call: `[u8; N]` with N = 6 is `[u8; 6]`
+            def _sub(m_):
+                return "; %d]" % fr.consts[m_.group(1)] if m_.group(1) in fr.consts else m_.group(0)
+            info = dict(info)
+            info["targs"] = [re.sub(r"; ([A-Za-z_]\w*)\]", _sub, t_) for t_ in info["targs"]]
         if info is not None and info.get("trait") and not info.get("res") and info.get("targs") and info["path"].startswith("mqtt::"):
             # a call to a method of an in-crate trait that the generic body could not resolve (`self.part()` inside a provided
             # method): with `Self` bound by the inlined call it is the impl's method, or the trait's provided one
@@ -1287,13 +1295,18 @@ class Explorer:
     def enter(self, st, stack, fr, callee, args, dest, target, cont, closure=False):
         if len(stack) > 12:
             raise ExploreError("inline depth exceeded at %s" % callee["path"])
-        for f in stack:
-            if f.fn["path"] == callee["path"] and not closure:
-                raise ExploreError("recursion through %s" % callee["path"])
-        nf = Frame(callee, len(stack))
-        nf.ret_to = (dest, target, cont)
         targs = getattr(self, "_pending_targs", None)
         self._pending_targs = None
+        for f in stack:
+            if f.fn["path"] == callee["path"] and not closure:
+                # a generic helper re-entered with other type arguments (`reader.take_with(WillSection::parse)` whose
+                # callee itself uses `take_with(MqttString::decode)`) is another instance, not recursion
+                if targs and getattr(f, "targs_key", None) is not None and f.targs_key != tuple(targs):
+                    continue
+                raise ExploreError("recursion through %s" % callee["path"])
+        nf = Frame(callee, len(stack))
+        nf.targs_key = tuple(targs) if targs else None
+        nf.ret_to = (dest, target, cont)
         gens = callee.get("generics")
         if targs and gens and len(targs) == len(gens):
             cm = {}
@@ -1789,6 +1802,52 @@ class Explorer:
         r_cs = self.cseq_model(st, stack, fr, info, path, p, args, dest, target, site)
         if r_cs is not None:
             return r_cs
+        # ---- bool::then(|| ..): Some(closure()) when the flag is set, None otherwise (the closure runs only then)
+        if p == "std::bool::<impl bool>::then" and len(args) == 2 and \
+                ((self.closure_of(st, args[1]) is not None and self.closure_of(st, args[1])[1] in self.F.fns) or self.fn_item_of(st, args[1]) is not None):
+            OPT_ = "std::option::Option"
+            return self.cseq_branch(
+                st, stack, args[0],
+                lambda s_, k_: self.cseq_call_closure(s_, k_, args[1], [], lambda s3, k3, rv: self.cseq_finish(s3, k3, dest, target, site, AGG(OPT_, "Some", (rv,)))),
+                lambda s_, k_: self.cseq_finish(s_, k_, dest, target, site, AGG(OPT_, "None")))
+        # ---- Option<Result<T, E>>::transpose: None -> Ok(None), Some(Ok(x)) -> Ok(Some(x)), Some(Err(e)) -> Err(e)
+        if p == "std::option::Option::<std::result::Result<T, E>>::transpose" and len(args) == 1 and args[0][0] in ("agg", "sym"):
+            OPT_, RES_ = "std::option::Option", "std::result::Result"
+            outs = []          # (constraints [(term, adt, variant)], value)
+            v = args[0]
+            if v[0] == "agg":
+                cases = [([], v)]
+            else:
+                cases = [([(v[1], OPT_, "None")], AGG(OPT_, "None")), ([(v[1], OPT_, "Some")], AGG(OPT_, "Some", (SYM(self.cap(("field", v[1], 0))),)))]
+            for cons_, ov in cases:
+                if ov[2] == "None":
+                    outs.append((cons_, AGG(RES_, "Ok", (AGG(OPT_, "None"),))))
+                    continue
+                r_ = ov[3][0]
+                if r_[0] == "agg":
+                    outs.append((cons_, AGG(RES_, "Ok", (AGG(OPT_, "Some", (r_[3][0],)),)) if r_[2] == "Ok" else AGG(RES_, "Err", (r_[3][0],))))
+                elif r_[0] == "sym":
+                    outs.append((cons_ + [(r_[1], RES_, "Ok")], AGG(RES_, "Ok", (AGG(OPT_, "Some", (SYM(self.cap(("field", r_[1], 0))),)),))))
+                    outs.append((cons_ + [(r_[1], RES_, "Err")], AGG(RES_, "Err", (SYM(self.cap(("field", r_[1], 0))),))))
+                else:
+                    outs = None
+                    break
+            if outs:
+                alts = []
+                for cons_, val in outs:
+                    s2 = st.clone()
+                    if not all(self.constrain(s2, ("discr", tm, adt_), "eq", self.variant_discr(adt_, var_)) for tm, adt_, var_ in cons_):
+                        continue
+                    k2 = self.clone_stack(stack)
+                    self.write_place(s2, k2[-1], dest, val, site)
+                    if target is None:
+                        continue
+                    k2[-1].bb = target
+                    alts.append((s2, k2))
+                if not alts:
+                    self.finish_path(st, None, "diverge")
+                    return "stop"
+                return ("fork", alts)
         # ---- arithmetic on primitive integers through the operator traits (`a + &b`, `x += &y`): the same operation as the
         #      MIR binary operator, with the same overflow obligation (core's impls inherit the caller's overflow checks)
         mprim = PRIM_OP_RE.match(path) if isinstance(path, str) else None
